@@ -64,7 +64,7 @@ pub enum Ev {
 pub struct Case {
     pub tree: Vec<Node>,
     /// markers present in the caller's state before the run
-    pub seeds: [Option<i64>; 4],
+    pub seeds: [Option<i64>; 5],
     /// the caller's state has one extra (outer) scope holding a second instance of marker 0
     pub outer_scope: bool,
     /// index (into the fault-free reference trace) of the event that fails; None = no fault
@@ -110,6 +110,44 @@ fn emit(ev: Ev) -> ExecResult<()> {
     })
 }
 
+/// Marker k: 0..=3 are harness state types, 4 is the crate's own `Evaluations` counter (a scope must restore a
+/// shadowed instance of ANY type, also of the common states).
+pub const N_MARKERS: u8 = 5;
+
+fn m_insert(state: &mut State<RealP>, k: u8, v: i64) {
+    if k % N_MARKERS == 4 {
+        state.insert(mahf::state::common::Evaluations(v as u32));
+    } else {
+        with_type!(k % N_MARKERS, T => { state.insert(T::from(v)); });
+    }
+}
+fn m_set(state: &mut State<RealP>, k: u8, v: i64) {
+    if k % N_MARKERS == 4 {
+        state.set_value::<mahf::state::common::Evaluations>(v as u32);
+    } else {
+        with_type!(k % N_MARKERS, T => { state.set_value::<T>(v); });
+    }
+}
+fn m_require(req: &StateReq<RealP>, k: u8) -> ExecResult<()> {
+    if k % N_MARKERS == 4 {
+        req.require::<LeafC, mahf::state::common::Evaluations>()?;
+    } else {
+        with_type!(k % N_MARKERS, T => req.require::<LeafC, T>()?);
+    }
+    Ok(())
+}
+fn m_top(state: &StateRegistry, k: u8) -> Option<i64> {
+    if k % N_MARKERS == 4 {
+        if state.contains_at_top::<mahf::state::common::Evaluations>() {
+            state.try_get_value::<mahf::state::common::Evaluations>().ok().map(|v| v as i64)
+        } else {
+            None
+        }
+    } else {
+        with_type!(k % N_MARKERS, T => if state.contains_at_top::<T>() { state.try_get_value::<T>().ok() } else { None })
+    }
+}
+
 #[derive(Tid)]
 pub struct Counter(pub i64);
 impl CustomState<'_> for Counter {}
@@ -125,14 +163,14 @@ impl Component<RealP> for LeafC {
     fn init(&self, _p: &RealP, state: &mut State<RealP>) -> ExecResult<()> {
         emit(Ev::Init(self.id))?;
         if let Effect::InitInsert(k, v) = &self.effect {
-            with_type!(*k, T => { state.insert(T::from(*v)); });
+            m_insert(state, *k, *v);
         }
         Ok(())
     }
     fn require(&self, _p: &RealP, req: &StateReq<RealP>) -> ExecResult<()> {
         emit(Ev::Require(self.id))?;
         if let Effect::Require(k) = &self.effect {
-            with_type!(*k, T => req.require::<Self, T>()?);
+            m_require(req, *k)?;
         }
         Ok(())
     }
@@ -142,12 +180,8 @@ impl Component<RealP> for LeafC {
             Effect::Bump => {
                 state.try_borrow_mut::<Counter>()?.0 += 1;
             }
-            Effect::Insert(k, v) => {
-                with_type!(*k, T => { state.insert(T::from(*v)); });
-            }
-            Effect::Set(k, v) => {
-                with_type!(*k, T => { state.set_value::<T>(*v); });
-            }
+            Effect::Insert(k, v) => m_insert(state, *k, *v),
+            Effect::Set(k, v) => m_set(state, *k, *v),
             _ => {}
         }
         Ok(())
@@ -479,7 +513,7 @@ fn run_real(case: &Case, cfg: &Configuration<RealP>, fault_at: Option<usize>) ->
     let mut state: State<'static, RealP> = reg.into();
     for (k, v) in case.seeds.iter().enumerate() {
         if let Some(v) = v {
-            with_type!(k as u8, T => { state.insert(T::from(*v)); });
+            m_insert(&mut state, k as u8, *v);
         }
     }
     state.insert(Counter(0));
@@ -564,9 +598,9 @@ fn run_case(case: &Case, classes: &mut u64) -> Result<(), Failure> {
         ensure_that!(depth == caller_depth, "C03 scope left open or caller scope lost", "[{how}] registry depth after the run is {depth}, before it was {caller_depth} (result {result:?})");
         // 4. caller-visible state
         let top = &m.scopes[m.scopes.len() - 1];
-        for k in 0..4u8 {
+        for k in 0..N_MARKERS {
             let want_top = top.markers.get(&k).copied();
-            let got_top: Option<i64> = with_type!(k, T => if state.contains_at_top::<T>() { state.try_get_value::<T>().ok() } else { None });
+            let got_top: Option<i64> = m_top(&state, k);
             let sig = if fault_at.is_some() { "C03 caller state after error" } else { "C03 caller state after run" };
             ensure_that!(got_top == want_top, sig, "[{how}] marker {k} in the caller's scope is {got_top:?}, expected {want_top:?} (scope-created state must be gone, shadowed outer values restored, writes to non-shadowed outer state kept); result {result:?}\n tree: {:?}", case.tree);
         }
@@ -754,7 +788,7 @@ fn exhaustive_cases(n: usize, leaf_kinds: Vec<Effect>) -> impl Iterator<Item = C
         vs.into_iter().flat_map(|mut tree| {
             let (mut a, mut b) = (0, 0);
             normalise(&mut tree, &mut a, &mut b);
-            let base = Case { tree, seeds: [Some(7), None, None, None], outer_scope: false, fault: None };
+            let base = Case { tree, seeds: [Some(7), None, None, None, Some(3)], outer_scope: false, fault: None };
             let mut free = model_for(&base, None);
             let _ = free.run(&base.tree);
             let len = free.trace.len();
@@ -773,10 +807,10 @@ fn effect_strategy() -> impl Strategy<Value = Effect> {
     prop_oneof![
         2 => Just(Effect::None),
         3 => Just(Effect::Bump),
-        3 => (0u8..4, 0i64..50).prop_map(|(k, v)| Effect::Insert(k, v)),
-        1 => (0u8..4, 50i64..99).prop_map(|(k, v)| Effect::InitInsert(k, v)),
-        3 => (0u8..4, 100i64..150).prop_map(|(k, v)| Effect::Set(k, v)),
-        1 => (0u8..4).prop_map(Effect::Require),
+        3 => (0u8..N_MARKERS, 0i64..50).prop_map(|(k, v)| Effect::Insert(k, v)),
+        1 => (0u8..N_MARKERS, 50i64..99).prop_map(|(k, v)| Effect::InitInsert(k, v)),
+        3 => (0u8..N_MARKERS, 100i64..150).prop_map(|(k, v)| Effect::Set(k, v)),
+        1 => (0u8..N_MARKERS).prop_map(Effect::Require),
     ]
 }
 
@@ -802,7 +836,7 @@ fn node_strategy() -> impl Strategy<Value = Node> {
 fn case_strategy() -> impl Strategy<Value = Case> {
     (
         proptest::collection::vec(node_strategy(), 0..5),
-        [proptest::option::of(0i64..9), proptest::option::of(10i64..19), proptest::option::of(20i64..29), proptest::option::of(30i64..39)],
+        [proptest::option::of(0i64..9), proptest::option::of(10i64..19), proptest::option::of(20i64..29), proptest::option::of(30i64..39), proptest::option::of(40i64..49)],
         any::<bool>(),
         prop_oneof![1 => Just(None), 3 => (0u16..64).prop_map(Some)],
     )
@@ -823,15 +857,15 @@ pub fn run_all(ctx: &mut Ctx, replay: Option<&Path>) {
         return;
     }
     ctx.regressions(&k);
-    let kinds3 = vec![Effect::Bump, Effect::Insert(0, 41), Effect::Set(0, 142)];
+    let kinds3 = vec![Effect::Bump, Effect::Insert(4, 41), Effect::Set(0, 142)];
     match ctx.tier {
         crate::engine::Tier::Quick => {
             ctx.exhaustive(&k, "all trees with <= 3 nodes x scripts {[],[T],[T,T]} / {[T],[F]} x 3 leaf effects x every single fault point", exhaustive_cases(3, kinds3.clone()));
-            ctx.exhaustive(&k, "all trees with exactly 4 nodes (leaf effect fixed to insert-marker-0) x scripts x every single fault point", exhaustive_cases(4, vec![Effect::Insert(0, 41)]).filter(|c| count_nodes(&c.tree) == 4));
+            ctx.exhaustive(&k, "all trees with exactly 4 nodes (leaf effect fixed to `insert the Evaluations marker`) x scripts x every single fault point", exhaustive_cases(4, vec![Effect::Insert(4, 41)]).filter(|c| count_nodes(&c.tree) == 4));
         }
         crate::engine::Tier::Thorough => {
             ctx.exhaustive(&k, "all trees with <= 4 nodes x scripts x 3 leaf effects x every single fault point", exhaustive_cases(4, kinds3));
-            ctx.exhaustive(&k, "all trees with exactly 5 nodes (leaf effect fixed to insert-marker-0) x scripts x every single fault point", exhaustive_cases(5, vec![Effect::Insert(0, 41)]).filter(|c| count_nodes(&c.tree) == 5));
+            ctx.exhaustive(&k, "all trees with exactly 5 nodes (leaf effect fixed to `insert the Evaluations marker`) x scripts x every single fault point", exhaustive_cases(5, vec![Effect::Insert(4, 41)]).filter(|c| count_nodes(&c.tree) == 5));
         }
     }
     let n = ctx.tier.pick(4000, 60_000);
